@@ -1,5 +1,5 @@
 From Coq Require Import Extraction ExtrOcamlBasic.
 From OV Require Import C04.Model.
 Extraction Language OCaml.
-Extraction "C04_model.ml" generate validate admissible_verdict cm_step session_key parse_tags add_tag enc_gen step st0 Repaired NoHACheck Unreserved ReserveOnly GuardOnly Defective DefIso DefSid
+Extraction "C04_model.ml" generate validate ideal_validate future_dated admissible_verdict2 admissible_verdict cm_step session_key parse_tags add_tag enc_gen step st0 Repaired NoHACheck Unreserved ReserveOnly GuardOnly Defective DefIso DefSid
   lookup_sid lookup_tup lookup_uidx lookup_attr get_attr size_sid size_tup.
